@@ -31,7 +31,7 @@ structure FoaSpec : Prop where
       (findOrAddCore i v w m).2.cache = m.cache
 
 /-- `OrderOK` reads the two name maps only -/
-theorem OrderOK.of_maps_eq {t t' : Tbl} (h : OrderOK t) (hv : t'.vars = t.vars) (hl : t'.l2v = t.l2v) :
+theorem OrderOK.dddmp_of_maps_eq {t t' : Tbl} (h : OrderOK t) (hv : t'.vars = t.vars) (hl : t'.l2v = t.l2v) :
     OrderOK t' := by
   have hn : t'.nvars = t.nvars := by simp only [Tbl.nvars, hv]
   exact ⟨by rw [hv, hl]; exact h.inv, by rw [hv, hn]; exact h.lt, by rw [hn, hl]; exact h.total⟩
@@ -451,7 +451,7 @@ theorem DddmpSt.step (H : FoaSpec) {m : Mgr} {umap : List (Int × Int)} {D : Ddd
       · simp [dddmpRebuildNode, dddmpEntryOf, hels, hthn0, hk, hi, hp, hq,
           dddmp_findOrAdd_eq_core _ _ _ _ hs.ctx, hfo, huabs]
       · refine ⟨hinv', hfr.2.2.trans hs.ctx, hfr.2.1.trans hs.l2v, ?_, ?_, ?_,
-          hs.order.of_maps_eq hsd.1.vars hsd.1.l2v, hex', hsd.1.lastLen.trans hs.off,
+          hs.order.dddmp_of_maps_eq hsd.1.vars hsd.1.l2v, hex', hsd.1.lastLen.trans hs.off,
           hsd.1.sched.trans hs.sched, hsd.1.roots.trans hs.noRoots, hsd.2.1.trans hs.fire,
           hsd.2.2.trans hs.cache⟩
         · have := hext.nvars
